@@ -104,6 +104,9 @@ class CallMixin:
             return Val(fty, srt.accessor(0, idx)(obj.t))
         arr = self.heap_array(s, name, field)
         self.heap_reads.add(f"{name}.{field}")
+        # read-over-write on the syntactically same object: keeps terms (e.g. list concatenations) visible
+        if z3.is_store(arr) and arr.arg(1).eq(obj.t):
+            return Val(fty, arr.arg(2))
         return Val(fty, z3.Select(arr, obj.t))
 
     def heap_array(self, s, cls, field):
@@ -550,13 +553,21 @@ class CallMixin:
         if c.post is not None:
             amap = dict(env)
             amap["result"] = result
+            gbound = []
+            for g, gty in c.ghost.items():
+                gc = z3.Const(fresh_name("gh_" + g), self.reg.sort(self.reg.parse(gty)))
+                gbound.append(gc)
+                amap[g] = Val(self.reg.parse(gty), gc)
             prev_unfold = self.unfold_specs
             self.unfold_specs = bool(getattr(c, "unfold_at_calls", False))
+            self.binder_depth += 1 if gbound else 0
             try:
                 post = self.eval_spec_fn(s, c.post, amap, pre_state=pre_state)
             finally:
                 self.unfold_specs = prev_unfold
-            s.assume(self.truth(post))
+                self.binder_depth -= 1 if gbound else 0
+            pt = self.truth(post)
+            s.assume(z3.ForAll(gbound, pt) if gbound else pt)
         if c.decreases is not None and self.current is not None and self.current.qualname == c.qualname:
             m_new = self.eval_spec_fn(s, c.decreases, env)
             m_old = self.current_measure
@@ -569,8 +580,7 @@ class CallMixin:
             for k, g in enumerate(goal.children()):     # one obligation per conjunct: smaller queries, named failures
                 self.emit(s, f"{name}/c{k}", g, note=note, kind=kind)
             return
-        goal = z3.simplify(goal) if z3.is_expr(goal) else goal
-        if kind == "valid" and z3.is_true(goal):
+        if kind == "valid" and z3.is_expr(goal) and z3.is_true(z3.simplify(goal)):
             self.stats["trivial_obligations"] += 1
             self.trivial.append(f"{self.vc_prefix}/{name}")
             return
@@ -582,21 +592,22 @@ class CallMixin:
             full = f"{full}.{k}"
         import itertools
         splits = self.case_splits if kind == "valid" else []
-        base_hyps = list(s.pc) + list(self.axioms)
+        base_hyps = list(s.pc)
+        axioms = list(self.axioms)
         if not splits or len(list(itertools.islice(itertools.product(*splits), 65))) > 64:
             for cases in splits:
-                base_hyps += [z3.Implies(c, e) for c, e in cases]
-            self.vcs.append(VC(full, base_hyps, goal, kind=kind, inputs=dict(self.current_inputs), note=note))
+                axioms += [z3.Implies(c, e) for c, e in cases]
+            self.vcs.append(VC(full, base_hyps, goal, kind=kind, inputs=dict(self.current_inputs), note=note, axioms=axioms))
             return
         # one VC per combination of spec-function cases, plus exhaustiveness of each case set
         for combo in itertools.product(*[list(enumerate(c)) for c in splits]):
             tag = ".".join(str(i) for i, _ in combo)
             hyps = base_hyps + [x for _, (c, e) in combo for x in (c, e)]
             self.vcs.append(VC(f"{full}/case-{tag}", hyps, goal, kind=kind, inputs=dict(self.current_inputs),
-                               note=note + " [spec case " + tag + "]"))
+                               note=note + " [spec case " + tag + "]", axioms=axioms))
         for k, cases in enumerate(splits):
             self.vcs.append(VC(f"{full}/cases-exhaustive-{k}", base_hyps, z3.Or(*[c for c, _ in cases]), kind="valid",
-                               inputs=dict(self.current_inputs), note="spec case analysis is exhaustive"))
+                               inputs=dict(self.current_inputs), note="spec case analysis is exhaustive", axioms=axioms))
 
     def path_id(self, s):
         import hashlib
